@@ -146,8 +146,19 @@ def run_sweep(case, r):
             a2 = case['alpha'] if rng.random() < 0.5 else float(10 ** rng.uniform(-8, 0))
             G2 = np.asarray(H.get_G_inv_matrix(l2, case['L'], a2, dict(num_nodes=M, quad_type='RADAU-RIGHT')), dtype=complex)
         configs.append((f'set_G_inv#{k + 1}', G2))
+    # ... and after the level's step size was changed (step-size control, a re-used controller): same object, other dt
+    for k in range(2):
+        configs.append((f'dt-changed#{k + 1}', None))
     for ci, (cname, Gi) in enumerate(configs):
-        if ci > 0:
+        if Gi is None:
+            dt = dt * float([0.37, 2.3, 0.5, 1.7][int(rng.integers(0, 4))])
+            L.params.dt = dt
+            Gi = np.asarray(L.sweep.params.G_inv)
+            R = rng.standard_normal((M, n)) + 1j * rng.standard_normal((M, n))
+            for m in range(M):
+                L.residual[m][:] = R[m]
+            r.count('sweeps_after_dt_change')
+        elif ci > 0:
             try:
                 L.sweep.set_G_inv(Gi)
             except AssertionError:
@@ -410,7 +421,7 @@ def finalize(agg):
     tot = c.get('kind:run', 0)
     if tot and c.get('premise_false_not_converged', 0) > 0.5 * tot:
         out.append(f'{c.get("premise_false_not_converged")} of {tot} ParaDiag runs did not reach the residual tolerance (premise of the run clause)')
-    for k, why in (('paradiag_iterations_watched', 'no ParaDiag iteration was compared with the all-at-once model'), ('reconfigured_sweeps', 'no sweep after set_G_inv was judged')):
+    for k, why in (('paradiag_iterations_watched', 'no ParaDiag iteration was compared with the all-at-once model'), ('reconfigured_sweeps', 'no sweep after set_G_inv was judged'), ('sweeps_after_dt_change', 'no sweep after a change of the step size was judged')):
         if c.get(k, 0) == 0:
             out.append(why)
     return out
